@@ -183,7 +183,7 @@ Theorem C03_lookup_sound_x : forall lower is_space sup valid names_of cap conn s
   (almost_full cap (length (cache s)) = true /\
    exists nm x, hello_name lower is_space cfg ip (x_idna e) = Some nm /\
                 subject_qualifies is_space nm = true /\
-                load_from_storage (x_storage e) (x_broken e) nm = Some x /\ sd_fresh x = true /\ c = sd_cert x /\
+                load_from_storage (x_storage e) (x_broken e) nm = Some x /\ sd_servable x = true /\ c = sd_cert x /\
                 exists san, In san (c_names c) /\ covers san nm).
 Proof. intros. eapply lookup_x_sound; eauto. Qed.
 Print Assumptions C03_lookup_sound_x.
@@ -210,7 +210,7 @@ Theorem C03_custom_selector_scope : forall lower is_space sup valid names_of cap
      Forall (fun q => sel_policy sup valid p s (fst q) = None) pre /\
      sel_policy sup valid p s v = Some c /\
      (p <> PDefault -> In c (choices_for s v))) \/
-  (exists x, load_ok lower is_space cap s cfg ip e x /\ sd_fresh x = true /\ c = sd_cert x).
+  (exists x, load_ok lower is_space cap s cfg ip e x /\ sd_servable x = true /\ c = sd_cert x).
 Proof. intros. eapply custom_selector_scope; eauto. Qed.
 Print Assumptions C03_custom_selector_scope.
 
@@ -326,6 +326,14 @@ Theorem C03_code_shape_today :
 Proof. repeat split; reflexivity. Qed.
 Print Assumptions C03_code_shape_today.
 
+(** translator tie, GetCertificateWithContext: the event handler's veto returns an error first; the
+    TLS-ALPN test is "server name given, exactly one ALPN protocol, and it is acme-tls/1"; otherwise
+    getCertDuringHandshake with loading enabled, whose certificate and error are returned as they are *)
+Theorem C03_entry_shape_today :
+  get_certificate_shape = [[105; 102; 32; 101; 114; 114; 58; 61; 99; 102; 103; 46; 101; 109; 105; 116; 40; 116; 108; 115; 95; 103; 101; 116; 95; 99; 101; 114; 116; 105; 102; 105; 99; 97; 116; 101; 41; 59; 32; 101; 114; 114; 33; 61; 110; 105; 108; 32; 45; 62; 32; 114; 101; 116; 117; 114; 110; 32; 110; 105; 108; 44; 102; 109; 116; 46; 69; 114; 114; 111; 114; 102; 40; 34; 104; 97; 110; 100; 115; 104; 97; 107; 101; 32; 97; 98; 111; 114; 116; 101; 100; 32; 98; 121; 32; 101; 118; 101; 110; 116; 32; 104; 97; 110; 100; 108; 101; 114; 58; 32; 37; 119; 34; 44; 101; 114; 114; 41]%N; [105; 102; 32; 99; 116; 120; 61; 61; 110; 105; 108; 32; 45; 62; 32; 99; 111; 110; 116; 105; 110; 117; 101]%N; [105; 102; 32; 99; 108; 105; 101; 110; 116; 72; 101; 108; 108; 111; 46; 83; 101; 114; 118; 101; 114; 78; 97; 109; 101; 33; 61; 34; 34; 32; 38; 38; 32; 108; 101; 110; 40; 99; 108; 105; 101; 110; 116; 72; 101; 108; 108; 111; 46; 83; 117; 112; 112; 111; 114; 116; 101; 100; 80; 114; 111; 116; 111; 115; 41; 61; 61; 49; 32; 38; 38; 32; 99; 108; 105; 101; 110; 116; 72; 101; 108; 108; 111; 46; 83; 117; 112; 112; 111; 114; 116; 101; 100; 80; 114; 111; 116; 111; 115; 91; 48; 93; 61; 61; 97; 99; 109; 101; 122; 46; 65; 67; 77; 69; 84; 76; 83; 49; 80; 114; 111; 116; 111; 99; 111; 108; 32; 45; 62; 32; 114; 101; 116; 117; 114; 110; 32; 99; 104; 97; 108; 108; 101; 110; 103; 101; 67; 101; 114; 116; 44; 110; 105; 108]%N; [99; 101; 114; 116; 44; 101; 114; 114; 58; 61; 99; 102; 103; 46; 103; 101; 116; 67; 101; 114; 116; 68; 117; 114; 105; 110; 103; 72; 97; 110; 100; 115; 104; 97; 107; 101; 40; 99; 116; 120; 44; 99; 108; 105; 101; 110; 116; 72; 101; 108; 108; 111; 44; 116; 114; 117; 101; 41]%N; [114; 101; 116; 117; 114; 110; 32; 38; 99; 101; 114; 116; 46; 67; 101; 114; 116; 105; 102; 105; 99; 97; 116; 101; 44; 101; 114; 114]%N].
+Proof. reflexivity. Qed.
+Print Assumptions C03_entry_shape_today.
+
 (** the run-time monitor is the boolean form of the statements above: it holds of what the model
     answers on every cache satisfying the invariant, for every policy *)
 Theorem C03_spec_ok_of_model : forall lower is_space names_of c,
@@ -401,16 +409,19 @@ Definition ex_lookup_x (st : amap stored) sni :=
 
 Example C03_x_hypotheses_satisfiable :
   (* a full cache (1 of 1): "q.y" is not cached but in storage and fresh: loaded, evicting f.y *)
-  ex_lookup_x [(n_qy, Stored ex_L true)] n_qy = (ROk ex_L, run 1 init [OAdd ex_f None; OAdd ex_L (Some [102]%N)]) /\
-  storage_wf [(n_qy, Stored ex_L true)] /\
+  ex_lookup_x [(n_qy, Stored ex_L true true)] n_qy = (ROk ex_L, run 1 init [OAdd ex_f None; OAdd ex_L (Some [102]%N)]) /\
+  storage_wf [(n_qy, Stored ex_L true true)] /\
   (* found under the name with its first label replaced by "*" *)
-  fst (ex_lookup_x [(n_sy, Stored ex_W true)] n_qy) = ROk ex_W /\
+  fst (ex_lookup_x [(n_sy, Stored ex_W true true)] n_qy) = ROk ex_W /\
   (* in storage but due for renewal: it cannot be maintained with on-demand TLS off; the fallback
      certificate is served -- although it has just been evicted -- and the cache ends up empty *)
-  ex_lookup_x [(n_qy, Stored ex_L false)] n_qy = (ROk ex_f, St [] []) /\
+  ex_lookup_x [(n_qy, Stored ex_L false false)] n_qy = (ROk ex_f, St [] []) /\
+  (* in storage, due for renewal but still valid: served, and -- the background renewal not being
+     allowed without on-demand TLS -- removed from the cache again: the cache ends up empty *)
+  ex_lookup_x [(n_qy, Stored ex_L false true)] n_qy = (ROk ex_L, St [] []) /\
   (* the exact name cannot be read (a storage error, not "not found"): the wildcard variant is not tried *)
   lookup_x ascii_lower ascii_space (select_cert (fun _ => true) ex_valid) true ex_full 1 (Config [] n_fb) n_qy n_ip
-           (EnvX (Some n_qy) [(n_sy, Stored ex_W true)] [n_qy] None) = (ROk ex_f, ex_full) /\
+           (EnvX (Some n_qy) [(n_sy, Stored ex_W true true)] [n_qy] None) = (ROk ex_f, ex_full) /\
   (* a ClientHelloInfo without a connection and without SNI: the local IP's certificate is not tried,
      the name is empty and does not qualify: an error (never a panic: fix 023e424) *)
   fst (lookup_x ascii_lower ascii_space (select_cert (fun _ => true) ex_valid) false ex_state 0 (Config [] [])
